@@ -25,7 +25,7 @@ GenNext ==
           /\ UNCHANGED sk
      ELSE Next
   /\ hist' = Append(hist, [ev |-> last', err |-> err',
-                            errs |-> IF last'.op \in {"Add", "AddW"} THEN SortedSeqStr(AddErrorSet(last'.v, last'.w)) ELSE <<>>,
+                            errs |-> IF last'.op \in {"Add", "AddW", "AddN"} THEN SortedSeqStr(AddErrorSet(last'.v, last'.w)) ELSE <<>>,
                             pred |-> IF Lazy THEN <<>> ELSE PredOf(sk')])
 
 GenSpec == GenInit /\ [][GenNext]_<<vars, hist>>
